@@ -349,13 +349,14 @@ def run(tier, seed):
 
     # 3. line protocol
     res, evaluations, nontrivial, samples, exhaustive = None, 0, 0, [], False
-    lines_path = os.path.join(CACHE, 'C14.lines')
+    tmp = lambda name: os.path.join(CACHE, 'C14.%d.%s' % (os.getpid(), name))     # private to this run
+    lines_path = tmp('lines')
     if harness and driver_ok:
         rcg, e = run_to_file([harness, 'lines', str(seed), budget], lines_path, 900)
         if rcg != 0:
             unexplained.append('harness run failed (rc=%d): %s' % (rcg, e[-500:]))
         else:
-            res = drive_lines(lines_path, os.path.join(CACHE, 'C14.drv'), 1800)
+            res = drive_lines(lines_path, tmp('drv'), 1800)
             if res['rc'] != 0 or res['summary'] is None:
                 unexplained.append('driver failed on the harness lines: rc=%s %s' % (res['rc'], (res['err'] or '')[-300:]))
                 res = None
@@ -374,7 +375,7 @@ def run(tier, seed):
                         if i % 9973 == 0 and len(samples) < 12: samples.append(l.strip())
         # the same inputs under ASan/UBSan: identical output, no abort
         if san and rcg == 0:
-            sp = os.path.join(CACHE, 'C14.san.lines')
+            sp = tmp('san.lines')
             env = dict(os.environ, ASAN_OPTIONS='detect_leaks=0', UBSAN_OPTIONS='print_stacktrace=1')
             rcs, e = run_to_file([san, 'lines', str(seed), budget], sp, 1800, env=env)
             if rcs != 0:
@@ -397,9 +398,9 @@ def run(tier, seed):
             nontrivial += finite
         if specviol: unexplained.append('the model differs from the specification on %d float pattern(s) of the sweep' % specviol)
         for b in bad_blocks[:3]:
-            bp = os.path.join(CACHE, 'C14.block')
+            bp = tmp('block')
             rcb, _ = run_to_file([harness, 'block', str(b)], bp, 900)
-            rb = drive_lines(bp, os.path.join(CACHE, 'C14.block.drv'), 1800) if rcb == 0 else None
+            rb = drive_lines(bp, tmp('block.drv'), 1800) if rcb == 0 else None
             if rb and rb['summary']:
                 n0 = len(violations)
                 classify(rb, known, violations, known_hits, harness)
@@ -464,6 +465,9 @@ def run(tier, seed):
                     'NaN payloads are not modelled (results canonicalised); the property is silent on NaN arguments of the stepping and ULP functions',
                     'see DESIGN.md §5 and h/C14/NOTES.md'],
                    time.time() - t0, nviol)
+    for p in glob.glob(os.path.join(CACHE, 'C14.%d.*' % os.getpid())):
+        try: os.remove(p)
+        except OSError: pass
     for l in lines: print(l)
     log('%s %s: %d theorem(s), %d failing, %d evaluation(s), %d violation line(s), %.1fs' % (PROP, tier, len(all_thms), len(failing), evaluations, nviol, time.time() - t0))
     return 1 if nviol else 0
